@@ -72,8 +72,13 @@ func VerifRelax() {
 	n := verifrt.Param("versions")
 	maxDigit := verifrt.Param("max_digit")
 	var universe []string
+	// one version of the universe (never the current one) may be a pre-release
+	pre := verifrt.Choice("prerelease-index", n) // 0 = none
 	for i := 0; i < n; i++ {
 		v, _ := verifVer("version", maxDigit)
+		if i > 0 && i == pre {
+			v += "-alpha"
+		}
 		universe = append(universe, v)
 	}
 	// the current requirement names one of the versions, pinned or as a ^ / ~ range
